@@ -210,6 +210,8 @@ TrReadHdr ==
                        <<"C10.roundtrip", (wrathSrv /\ e.res.kind = "ok" /\ hout'.kind = "ok") => SentSrv(e, e.res.header)>>,
                        <<"C10.readResult", wrathSrv => e.res.kind = hout'.kind>>,
                        <<"C12.indep", HasF(e, "otherSame") => e.otherSame>>,     \* the sending direction of the object is as it was
+                       \* a separate object that handles only this direction decodes the same header from the same bytes
+                       <<"C12.indep", (HasF(e, "refHeader") /\ e.res.kind = "ok") => e.res.header = e.refHeader>>,
                        <<"C10.consumedExactly", (wrathSrv /\ hout'.kind = "ok") =>
                             e.unread = ScriptBytes(e.script) - hout'.used>>,
                        << p \o ".bytes", (e.res.kind = "ok" /\ hout'.kind = "ok") => e.res.header = hout'.header>>,
@@ -314,6 +316,18 @@ TrBigCall ==
           DonePure(<< << p \o ".bigCall", e.dBig = e.dChunked /\ e.stBig = e.stChunked>> >>,
                    {"BigCall", "BigCall." \o e.exp \o "." \o e.dir})
 
+\* More than 2^32 bytes through ONE half (Vanilla / TBC): the position is defined modulo the key length, which does not
+\* divide 2^32, so the state the half shows at the end is (bytes mod key length, last ciphertext byte); the calls around
+\* byte number 2^32 are judged by the StateChunk events that follow.
+TrPast32 ==
+    /\ IsEv("Past32")
+    /\ LET e == E
+           p == PC(e.exp) IN
+       /\ UNCHANGED tvars
+       /\ IF ImplPanic(e) THEN DonePure(<< <<"C14.total", FALSE>>, << p \o ".past32", FALSE>> >>, {"Past32"}) ELSE
+          DonePure(<< << p \o ".past32", (HasF(e.st, "i") /\ HasF(e.st, "p")) => (e.st.i = e.want.i /\ e.st.p = e.want.p)>> >>,
+                   {"Past32", "Past32." \o e.exp \o "." \o e.dir})
+
 TrStateChunk ==
     /\ IsEv("StateChunk")
     /\ LET e == E
@@ -343,7 +357,7 @@ TrSizeSweep ==
 Next ==
     \/ TrReset \/ SkipBad(tvars)
     \/ TrWorldClient \/ TrWorldServer \/ TrCall \/ TrEncHdr \/ TrDecHdr
-    \/ TrWrathAttempt \/ TrWrathComplete \/ TrReadHdr \/ TrWriteHdr \/ TrBigCall \/ TrStateChunk
+    \/ TrWrathAttempt \/ TrWrathComplete \/ TrReadHdr \/ TrWriteHdr \/ TrBigCall \/ TrStateChunk \/ TrPast32
     \/ TrParseHdr \/ TrSplit \/ TrUnsplit \/ TrCloneHalf \/ TrDropHalf \/ TrStateSweep \/ TrSizeSweep
 
 Spec == Init /\ [][Next]_vars
